@@ -166,3 +166,20 @@ pub fn rand_subset(h: &mut H, l: usize) -> Vec<usize> {
 pub fn pick_msgs(msgs: &[Vec<u8>], idx: &[usize]) -> Vec<Vec<u8>> {
     idx.iter().map(|&i| msgs[i].clone()).collect()
 }
+
+/// compressed encoding of `P + T` where `P` is the G1 point encoded by `enc48` and `T = (0, +-2)` has order 3
+/// (a curve point outside the prime-order group); `None` if `enc48` does not decode
+pub fn with_small_order_component(enc48: &[u8], sort: u8) -> Option<[u8; 48]> {
+    use bls12_381_plus::group::Curve;
+    use bls12_381_plus::{G1Affine, G1Projective};
+    let mut a = [0u8; 48];
+    a.copy_from_slice(enc48);
+    let p: G1Affine = Option::from(G1Affine::from_compressed(&a))?;
+    let mut t = [0u8; 48];
+    t[0] = 0x80 | sort;
+    let t: G1Affine = Option::from(G1Affine::from_compressed_unchecked(&t))?;
+    if bool::from(t.is_torsion_free()) {
+        return None;
+    }
+    Some((G1Projective::from(p) + G1Projective::from(t)).to_affine().to_compressed())
+}
